@@ -123,6 +123,9 @@ static int apply_violation(argset *a, const char *v)
     if (!strcmp(v, "nprocs.zero")) a->nprocs = 0; else if (!strcmp(v, "nprocs.neg")) a->nprocs = -3;
     else if (!strcmp(v, "A.nonsquare")) a->A.nrow = a->n + 1;
     else if (!strcmp(v, "A.negdim")) { a->A.nrow = -1; a->A.ncol = -1; }
+    else if (!strcmp(v, "A.negcol")) a->A.ncol = -1;
+    else if (!strcmp(v, "A.negrow")) a->A.nrow = -1;
+    else if (!strcmp(v, "nrhs.zero")) { a->B.ncol = 0; a->X.ncol = 0; }       /* not a violation: an empty (legal) problem around another one */
     else if (!strcmp(v, "A.stype")) a->A.Stype = SLU_SC;
     else if (!strcmp(v, "A.stype_nr")) a->A.Stype = SLU_NR;
     else if (!strcmp(v, "A.dtype")) a->A.Dtype = (a->vt->dtype == SLU_D) ? SLU_S : SLU_D;
